@@ -248,6 +248,15 @@ def corpus_descs():
                     [{"s": items[0], "t": 5}, {"s": items[2], "t": 5},
                      # a value of exactly MAX-LENGTH (no terminator) followed by a byte equal to the terminator
                      {"s": items[2], "t": 0}, {"s": items[2], "t": 0xFF}]))
+    # the recorded finding unterminated-value-before-padding: a HEX-FF terminated object as last object of a padded
+    # container at the end of the PDU (the terminator is omitted "at the end of the PDU", then the padding follows)
+    out.append(([cc.param("sid", dict(k="coded", dct=cc.std(cc.BUINT, 8), v=0x22)),
+                 cc.param("f", dict(k="value", dop=dict(k="static", s=item(1), n=2, isz=6), dflt=None))], False,
+                [{"f": items[:2]}, {"f": [items[1], items[2]]}]))
+    out.append(([cc.param("sid", dict(k="coded", dct=cc.std(cc.BUINT, 8), v=0x22)),
+                 cc.param("s", dict(k="value", dop=cc.struct([cc.param("i2", dict(k="value", dop=mm(1, 4), dflt=None))], byte_size=4),
+                                    dflt=None))], False,
+                [{"s": {"i2": b"c"}}, {"s": {"i2": b"abcd"}}]))
     # string objects with an encoding which is illegal for strings (odxraise at run time)
     for bt, en in ((cc.BASCII, 1), (cc.BUTF8, 4), (cc.BUNI, 0)):
         out.append(([cc.param("p1", dict(k="value", dop=cc.simple(cc.std(bt, 16, en)), dflt=None))], False,
